@@ -165,3 +165,50 @@ def check(case):
 
 ARMS = [HypArm("clean", lambda tier: _case(tier), check, signature=signature,
                budget={"quick": 1000, "thorough": 60000})]
+
+
+# ------------------------------------------------------- real sessions, pytest started outside the project
+
+
+def check_from_parent(case):
+    """the same property through a real session that is started from the *parent* directory of the
+    project (`pytest proj/`), as in a repository that holds several projects"""
+    import shutil
+
+    import black
+
+    mode = black_mode(case["mode"])
+    src, order = gp.render_program(case["prog"])
+    try:
+        f1 = black.format_str(src, mode=mode)
+        if black.format_str(f1, mode=mode) != f1:
+            return {"nontrivial": False, "classes": ["not-cleanable"]}
+    except Exception:
+        return {"nontrivial": False, "classes": ["not-cleanable"]}
+    src = f1
+    d = drivers.make_project({"proj/test_a.py": src, "proj/pyproject.toml": pyproject_of(case["mode"])}, pyproject=None)
+    try:
+        F = case["F"] or ["create", "fix"]
+        r = drivers.run_pytest(d, ["--inline-snapshot=" + ",".join(F), "proj/test_a.py"])
+        if "INTERNALERROR" in r.stdout or r.returncode not in (0, 1):
+            raise Violation("session-broken", f"rc={r.returncode}\n{r.stdout[-1500:]}\n{r.stderr[-800:]}")
+        new = r.files_after["proj/test_a.py"].decode("utf-8")
+    finally:
+        shutil.rmtree(d, ignore_errors=True)
+    changed = new != src
+    if changed and "Problems" not in r.stdout:
+        again = black.format_str(new, mode=mode)
+        if again != new and black.format_str(again, mode=mode) == again:
+            import difflib
+
+            diff = "\n".join(difflib.unified_diff(new.splitlines(), again.splitlines(), lineterm="", n=1))
+            raise Violation("clean-file-not-clean-afterwards:cwd-outside-project",
+                            f"pytest started in the parent directory; [tool.black] {case['mode']} F={F}\n{diff[:1500]}\n"
+                            f"--- before\n{src}\n--- after\n{new}")
+    default = all(v is None for v in case["mode"].values())
+    return {"nontrivial": changed and not default, "classes": ["changed" if changed else "unchanged"],
+            "sample": {"mode": case["mode"], "before": src, "after": new}}
+
+
+ARMS.append(HypArm("sessions_from_parent", lambda tier: _case(tier), check_from_parent, signature=signature,
+                   budget={"quick": 40, "thorough": 1200}, shrink=False))
